@@ -60,15 +60,20 @@ type fnResult struct {
 }
 
 func (e *Engine) findFunction(name string) *ssa.Function {
+	var best *ssa.Function
 	for fn := range ssautilAll(e.prog) {
-		if fn.Pkg != e.pkg && !(fn.Parent() != nil && rootPkg(fn) == e.pkg) {
+		if rootPkg(fn) != e.pkg {
 			continue
 		}
 		if fnName(fn) == name {
-			return fn
+			// prefer an instantiation of a generic function over its uninstantiated origin
+			if best == nil || (len(fn.TypeArgs()) > 0 && len(best.TypeArgs()) == 0) ||
+				(len(fn.TypeArgs()) > 0 && fn.String() < best.String()) {
+				best = fn
+			}
 		}
 	}
-	return nil
+	return best
 }
 
 // initialState builds the symbolic entry state.
@@ -243,8 +248,13 @@ func (e *Engine) verifyFunction(ct *Contract, prop string, tier string) *fnResul
 					env.vars[l.Name] = env.eval(l.Node)
 				}
 			}
+			vacuousShape := false
 			for _, rq := range ct.Requires {
 				t := env.term(rq.Node)
+				if env.err == nil && t.IsFalse() {
+					vacuousShape = true
+					break
+				}
 				if env.err != nil {
 					res.Notes = append(res.Notes, fmt.Sprintf("BROKEN requires %s: %v", rq.Src, env.err))
 					o := getObl(ct.Short+".contract-wellformed", "wellformed", rq.Src, structProps, rq.Line)
@@ -254,7 +264,11 @@ func (e *Engine) verifyFunction(ct *Contract, prop string, tier string) *fnResul
 				}
 				st.assume(t)
 			}
+			if vacuousShape {
+				continue // this input shape is excluded by a precondition
+			}
 			pre := st.clone()
+			st.entry = pre
 			var exits []*exitPath
 			endPathHook = func(s *State) {
 				kind := "panic"
